@@ -360,10 +360,7 @@ def sbytes_decode(b, enc, errors):
     if e == 'utf8' and errors == 'strict':
         return utf8_decode_strict(b)
     if e == 'utf8' and errors == 'replace':
-        try:
-            return utf8_decode_strict(b)
-        except UnicodeDecodeError:
-            raise Inconclusive("utf-8 decode with errors='replace' reached an invalid sequence (outside the modelled domain)")
+        return utf8_decode_strict(b, replace=True)
     if e in ('utf16', 'utf16le', 'utf16be'):
         return utf16_decode(b, e, errors)
     raise Inconclusive("decode(%s, %s) of symbolic bytes" % (enc, errors))
@@ -414,48 +411,56 @@ def utf16_decode(b, e, errors):
     return SStr([x if isinstance(x, int) else _norm(x.e) for x in out])
 
 
-def utf8_decode_strict(b):
-    """CPython's strict UTF-8 decoder over symbolic bytes (shortest form only, no surrogates, <= U+10FFFF)"""
+def utf8_decode_strict(b, replace=False):
+    """CPython's UTF-8 decoder over symbolic bytes (shortest form only, no surrogates, <= U+10FFFF).  replace=True models
+    errors='replace' approximately: every byte that cannot start or continue a sequence becomes one U+FFFD (CPython
+    replaces maximal invalid subparts; the two agree on well-formed input, and replays run the real decoder)."""
     from .engine import SInt as _S
     it = [_S.of(x) for x in b.items]
     n = len(it)
     out = []
     i = 0
 
-    def err():
-        return UnicodeDecodeError('utf-8', b'\xff', 0, 1, 'invalid utf-8')
+    class Bad(Exception):
+        pass
 
     def cont(k):
         if k >= n or not bool(SBool(z3.And(it[k].e >= 0x80, it[k].e <= 0xBF))):
-            raise err()
+            raise Bad()
         return it[k] & 0x3F
     while i < n:
         c = it[i]
-        if bool(SBool(c.e < 0x80)):
-            out.append(b.items[i])
+        try:
+            if bool(SBool(c.e < 0x80)):
+                out.append(b.items[i])
+                i += 1
+            elif bool(SBool(z3.And(c.e >= 0xC2, c.e <= 0xDF))):
+                out.append(((c & 0x1F) << 6) | cont(i + 1))
+                i += 2
+            elif bool(SBool(z3.And(c.e >= 0xE0, c.e <= 0xEF))):
+                c1 = cont(i + 1)
+                c2 = cont(i + 2)
+                v = ((c & 0x0F) << 12) | (c1 << 6) | c2
+                if not bool(SBool(z3.And(v.e >= 0x800, z3.Not(z3.And(v.e >= 0xD800, v.e <= 0xDFFF))))):
+                    raise Bad()
+                out.append(v)
+                i += 3
+            elif bool(SBool(z3.And(c.e >= 0xF0, c.e <= 0xF4))):
+                c1 = cont(i + 1)
+                c2 = cont(i + 2)
+                c3 = cont(i + 3)
+                v = ((c & 0x07) << 18) | (c1 << 12) | (c2 << 6) | c3
+                if not bool(SBool(z3.And(v.e >= 0x10000, v.e <= 0x10FFFF))):
+                    raise Bad()
+                out.append(v)
+                i += 4
+            else:
+                raise Bad()
+        except Bad:
+            if not replace:
+                raise UnicodeDecodeError('utf-8', b'\xff', 0, 1, 'invalid utf-8')
+            out.append(0xFFFD)
             i += 1
-        elif bool(SBool(z3.And(c.e >= 0xC2, c.e <= 0xDF))):
-            out.append(((c & 0x1F) << 6) | cont(i + 1))
-            i += 2
-        elif bool(SBool(z3.And(c.e >= 0xE0, c.e <= 0xEF))):
-            c1 = cont(i + 1)
-            c2 = cont(i + 2)
-            v = ((c & 0x0F) << 12) | (c1 << 6) | c2
-            if not bool(SBool(z3.And(v.e >= 0x800, z3.Not(z3.And(v.e >= 0xD800, v.e <= 0xDFFF))))):
-                raise err()
-            out.append(v)
-            i += 3
-        elif bool(SBool(z3.And(c.e >= 0xF0, c.e <= 0xF4))):
-            c1 = cont(i + 1)
-            c2 = cont(i + 2)
-            c3 = cont(i + 3)
-            v = ((c & 0x07) << 18) | (c1 << 12) | (c2 << 6) | c3
-            if not bool(SBool(z3.And(v.e >= 0x10000, v.e <= 0x10FFFF))):
-                raise err()
-            out.append(v)
-            i += 4
-        else:
-            raise err()
     return SStr([x if isinstance(x, int) else _norm(x.e) for x in out])
 
 
